@@ -112,6 +112,21 @@ func c06Body(r *Run) {
 		stopHandler = t.Int(nH)
 		stopDelay = time.Duration(t.Int(6)) * 30 * time.Millisecond
 	}
+	// one run in eight: EVERY handler is stopped on its own (the router then closes itself) while invocations shorter
+	// than CloseTimeout are in flight: whoever calls Close meanwhile gets nil only once they are over
+	// (not in runs with clock jumps: a stall can make the router's own close time out, which the harness cannot see, and
+	// after a timed-out close a repeated Close returns nil whatever is still running)
+	stopAll := stopHandler < 0 && subscribeFails < 0 && t.Chance(1, 8) && r.Params["clock_jumps"] == 0
+	if stopAll {
+		stopDelay = time.Duration(t.Int(4)) * 20 * time.Millisecond
+		for _, h := range hs {
+			for u, d := range h.dur {
+				if d > 100*time.Millisecond {
+					h.dur[u] = 100 * time.Millisecond
+				}
+			}
+		}
+	}
 	panics := map[string]bool{}
 	for i := 0; i < nH; i++ {
 		for m := 0; m < len(hs[i].dur); m++ {
@@ -194,7 +209,7 @@ func c06Body(r *Run) {
 		// "closes every handler's subscriber and publisher": when nil comes back the publishers' Close calls have returned
 		if c.err == nil && !earlyClose && rig.Router.IsRunning() {
 			for i, h := range hs {
-				if i == stopHandler || i == subscribeFails || len(h.sub.Subscribes) == 0 && !useGoChannel {
+				if stopAll || i == stopHandler || i == subscribeFails || len(h.sub.Subscribes) == 0 && !useGoChannel {
 					continue
 				}
 				if h.h != nil && rawClosed(h.h.Started()) && h.pub.ClosesDone == 0 {
@@ -309,7 +324,7 @@ func c06Body(r *Run) {
 				if len(h.sub.Subscribes) == 0 {
 					continue // never started
 				}
-				if i == stopHandler {
+				if i == stopHandler || stopAll {
 					continue // stopped on its own: no longer one of the router's handlers when Close came
 				}
 				if h.sub.Closes == 0 {
@@ -359,6 +374,21 @@ func c06Body(r *Run) {
 				}
 			}
 		}()
+	}
+	if stopAll {
+		for _, h := range hs {
+			hh := h.h
+			go func() {
+				select {
+				case <-hh.Started():
+				case <-runDone:
+					return
+				}
+				time.Sleep(stopDelay)
+				r.Fault("handler-stop")
+				hh.Stop()
+			}()
+		}
 	}
 	if stopHandler >= 0 {
 		go func() {
